@@ -708,6 +708,27 @@ func applyLib(o *owner, m Mut, model *raw) (panicked string) {
 	})
 }
 
+// nilness compares which of the exposed slices are nil (a nil and an empty
+// slice hold the same coordinates but are not the same structure).
+func nilness(a, b geom.T) string {
+	if (a.FlatCoords() == nil) != (b.FlatCoords() == nil) {
+		return fmt.Sprintf("FlatCoords() is nil in the source: %v, in the clone: %v", a.FlatCoords() == nil, b.FlatCoords() == nil)
+	}
+	if (a.Ends() == nil) != (b.Ends() == nil) {
+		return fmt.Sprintf("Ends() is nil in the source: %v, in the clone: %v", a.Ends() == nil, b.Ends() == nil)
+	}
+	ea, eb := a.Endss(), b.Endss()
+	if (ea == nil) != (eb == nil) {
+		return fmt.Sprintf("Endss() is nil in the source: %v, in the clone: %v", ea == nil, eb == nil)
+	}
+	for i := range ea {
+		if i < len(eb) && (ea[i] == nil) != (eb[i] == nil) {
+			return fmt.Sprintf("Endss()[%d] is nil in the source: %v, in the clone: %v", i, ea[i] == nil, eb[i] == nil)
+		}
+	}
+	return ""
+}
+
 func cloneGeom(g geom.T) geom.T {
 	switch g := g.(type) {
 	case *geom.Point:
@@ -815,6 +836,10 @@ func (prop) Execute(scAny any, phase string, log *core.Log) core.Result {
 		}
 		if d := observeRaw(src).diff(observeRaw(c)); d != "" {
 			res.Fail("clone-differs", "clone-differs:"+s.Kind, "%s: the clone differs from its source: %s", what, d)
+			return nil, false
+		}
+		if d := nilness(src, c); d != "" {
+			res.Fail("clone-differs", "clone-differs:"+s.Kind+":nil-vs-empty", "%s: %s", what, d)
 			return nil, false
 		}
 		return c, true
@@ -1069,6 +1094,10 @@ func execCoord(s *Scenario, phase string, log *core.Log) core.Result {
 	}
 	if d := eq(c, o); d != "" {
 		res.Fail("clone-differs", "clone-differs:Coord", "Coord clone differs: %s", d)
+		return res
+	}
+	if (c == nil) != (o == nil) {
+		res.Fail("clone-differs", "clone-differs:Coord:nil-vs-empty", "Coord clone: the original is nil: %v, the clone is nil: %v", o == nil, c == nil)
 		return res
 	}
 	objs := [2]geom.Coord{o, c}
